@@ -661,7 +661,7 @@ fn fix_lone_cr(mut calls: Vec<OutCall>) -> Vec<OutCall> {
                             strip(bb, rel - a.len() - 1)
                         }
                     }
-                    OutCall::SetPrompt(_) | OutCall::UwriteChar(_) | OutCall::FmtChar(_) | OutCall::FailParse => false,
+                    OutCall::SetPrompt(_) | OutCall::UwriteChar(_) | OutCall::FmtChar(_) | OutCall::FailParse | OutCall::ListElement(..) | OutCall::Title(_) => false,
                 };
                 if !done {
                     // could not locate it (should not happen): drop all CRs of this call
@@ -671,7 +671,7 @@ fn fix_lone_cr(mut calls: Vec<OutCall>) -> Vec<OutCall> {
                             *a = a.replace('\r', "");
                             *bb = bb.replace('\r', "");
                         }
-                        OutCall::SetPrompt(_) | OutCall::UwriteChar(_) | OutCall::FmtChar(_) | OutCall::FailParse => {}
+                        OutCall::SetPrompt(_) | OutCall::UwriteChar(_) | OutCall::FmtChar(_) | OutCall::FailParse | OutCall::ListElement(..) | OutCall::Title(_) => {}
                     }
                 }
                 break;
